@@ -267,7 +267,9 @@ def run(sim, plan):
             if secsi and env.hp.peer.contentions:
                 sim.inconclusive("SECS-I ENQ contention (outside the statement)")
             near_t3 = any(c["epoch"] == ep["n"] and abs((c["t"] + T3) - k.now) < 0.5 for c in ep["cr_sent"])
-            if state_before in ("WAIT_CRA", "COMMUNICATING") and len(out) != 1 and not (
+            # E30: the remote's S1F13 is answered while waiting for the reply to the own request, while waiting to repeat
+            # it (WAIT_DELAY) and when communicating
+            if state_before in ("WAIT_CRA", "WAIT_DELAY", "COMMUNICATING") and len(out) != 1 and not (
                     state_before == "WAIT_CRA" and near_t3 and not out):
                 sim.violation("C07.R1", f"inbound S1F13 in {state_before} got {len(out)} replies",
                               sig=f"C07.R1|s1f13-replies-{len(out)}")
